@@ -134,6 +134,17 @@ func serve(req *proto.RunReq) (resp *proto.RunResp) {
 		Force:              req.Args.Force,
 	}
 
+	var second gengo.Executor
+	if req.SecondContext != "" {
+		// another context over a copy of the module, created first and executed while the reported one exists
+		if err := os.Chdir(req.SecondContext); err == nil {
+			os.Setenv("PWD", req.SecondContext)
+			a2 := *args
+			second, _ = gengo.NewContext(&a2)
+			_ = os.Chdir(cwd)
+			os.Setenv("PWD", cwd)
+		}
+	}
 	rec.start()
 	c, err := gengo.NewContext(args)
 	if err != nil {
@@ -143,13 +154,31 @@ func serve(req *proto.RunReq) (resp *proto.RunResp) {
 		}
 		return
 	}
+	if second != nil {
+		rec.stop()
+		if g2, err := buildGenerators(req.Gens); err == nil {
+			_ = second.Execute(context.Background(), g2...)
+		}
+		// (the generator prototypes without New are per process: rebuild the reported run's)
+		gens, _ = buildGenerators(req.Gens)
+		rec.start()
+	}
 	rec.beginExec()
 	if req.HasFirstGlobals {
 		// an earlier pass on the same executor with other global tags; the report is about the next call
 		final := args.Globals
 		args.Globals = req.FirstGlobals
 		rec.stop()
-		_ = c.Execute(context.Background(), gens...)
+		firstGens := gens
+		if len(req.FirstGens) > 0 {
+			if fg, err := buildGenerators(req.FirstGens); err == nil {
+				firstGens = fg
+			}
+		}
+		_ = c.Execute(context.Background(), firstGens...)
+		if len(req.FirstGens) > 0 {
+			gens, _ = buildGenerators(req.Gens)
+		}
 		args.Globals = final
 		rec.restartExec()
 		rec.start()
